@@ -6,6 +6,7 @@ import ast
 from ..astutil import dotted, is_none, norm, strip_docstring, unwrap_cast, walk_body
 from ..digest import Dyn, Lit, eval_str
 from ..dtree import decision_tree, strip_casts
+from ..finite import k_eq, k_is, k_none
 from ..report import Checker
 from ..srcmodel import Func, Unsupported
 from . import templates_rules as T
@@ -82,9 +83,9 @@ def r_tree_ident(ck: Checker) -> None:
                 continue
             el = node_evidence(l, f, ncls) or (norm(l) == "self._root" and "the tree's root")
             er = node_evidence(r, f, ncls) or (norm(r) == "self._root" and "the tree's root")
-            if norm(l) in ("parent", "a", "ancestor") and not el:
+            if (norm(l) in ("parent", "a", "ancestor", "candidate") or norm(l).startswith("self.get_parent(")) and not el:
                 el = "node local"
-            if norm(r) in ("parent", "a", "ancestor") and not er:
+            if (norm(r) in ("parent", "a", "ancestor", "candidate") or norm(r).startswith("self.get_parent(")) and not er:
                 er = "node local"
             if not (el and er):
                 continue
@@ -131,18 +132,21 @@ def r_tree_raise(ck: Checker) -> None:
         (ck.violation if bad else ck.holds)("R-TREE-RAISE", f, f.node, what, evaluations=len(leaves), **({"construct": f"{q}: {bad[0]}"} if bad else {}))
     f = ck.repo.func(TREE, "Tree.get_depth")
     body = strip_docstring(f.node.body)
+    np_ = f.node.args.args[1].arg
+    par = f"self.get_parent({np_})"
     leaves = decision_tree(body, alias_filter=lambda st: False)
-    k_rel = "is(None,relative_to)"
+    k_rel = k_none("relative_to")
     k_chk = "check_ancestor"
-    k_anc = "self.is_ancestor(node, relative_to)"
-    k_par = "is(None,parent)"
-    k_same = "is(parent,relative_to)"
+    k_anc = f"self.is_ancestor({np_}, relative_to)"
+    k_par = k_none(par)
+    k_same = k_is(par, "relative_to")
     bad = []
+    unrec = []
     for lf in leaves:
         a = lf.assign
         unknown = set(a) - {k_rel, k_chk, k_anc, k_par, k_same}
         if unknown:
-            bad.append(f"decides on {sorted(unknown)}")
+            unrec.append(f"decides on {sorted(unknown)}")
             continue
         must_raise = a.get(k_rel) is False and a.get(k_chk) is True and a.get(k_anc) is False
         if lf.outcome == "raise":
@@ -156,20 +160,22 @@ def r_tree_raise(ck: Checker) -> None:
         if a.get(k_par) is True:
             if v != "0":
                 bad.append(f"root depth is {v}")
-        elif a.get(k_rel) is False and a.get(k_same) is True:
+        elif a.get(k_same) is True and a.get(k_rel) is not True:
             if v != "1":
                 bad.append(f"depth relative to the direct parent is {v}")
         else:
-            if v not in ("self.get_depth(parent, relative_to, False) + 1", "1 + self.get_depth(parent, relative_to, False)",
-                         "self.get_depth(parent, relative_to, check_ancestor=False) + 1"):
-                bad.append(f"recursive case returns {v}")
+            if v not in (f"self.get_depth({par}, relative_to, False) + 1", f"1 + self.get_depth({par}, relative_to, False)",
+                         f"self.get_depth({par}, relative_to, check_ancestor=False) + 1", f"self.get_depth({par}, relative_to=relative_to, check_ancestor=False) + 1"):
+                (unrec if v and "get_depth" in v else bad).append(f"recursive case returns {v}")
     if not any(lf.outcome == "raise" for lf in leaves):
         bad.append("relative depth to a non-ancestor does not raise ValueError")
-    par = [st for st in body if isinstance(st, ast.Assign) and norm(st.targets[0]) == "parent"]
-    if len(par) != 1 or norm(par[0].value) != "self.get_parent(node)":
-        bad.append("parent is not self.get_parent(node)")
     what = "get_depth: ValueError iff relative_to is given, checked and not an ancestor; 0 at the root; 1 at the reference parent; else parent's depth + 1"
-    (ck.violation if bad else ck.holds)("R-TREE-RAISE", f, f.node, what, evaluations=len(leaves), **({"construct": f"get_depth: {bad[0]}"} if bad else {}))
+    if bad:
+        ck.violation("R-TREE-RAISE", f, f.node, what, evaluations=len(leaves), construct=f"get_depth: {bad[0]}")
+    elif unrec:
+        raise Unsupported(f"get_depth: {unrec[0]}", f.node)
+    else:
+        ck.holds("R-TREE-RAISE", f, f.node, what, evaluations=len(leaves))
 
 
 def r_tree_chain(ck: Checker) -> None:
